@@ -246,6 +246,10 @@ pub fn make_brancher(spec: &BrSpec, solver: &Solver, vars: &[DomainId]) -> Dynam
 pub enum Step {
     /// `sparse` forces `new_sparse_integer` even for a contiguous range
     NewVar { vals: Vec<i32>, sparse: bool },
+    /// a bounded variable given by its range only (ranges too large to list, family `big`)
+    NewVarRange { lo: i32, hi: i32 },
+    /// point query: `satisfy_under_assumptions([x = v] for every variable)`; `vals[0]` is the dummy
+    Point { vals: Vec<i32> },
     NewLit,
     NewLitPred { p: Pred },
     Post { c: Cons, tag: Option<u32> },
@@ -549,6 +553,44 @@ fn run_step(run: &mut Run, step: &Step) -> bool {
             run.nvars += 1;
             assert_eq!(d.id + 1, run.nvars - 0, "harness: unexpected domain id");
             ext(json!({"e":"NewVar","v":run.nvars,"vals":sorted,"lit":false}));
+            true
+        }
+        Step::NewVarRange { lo, hi } => {
+            let r = guarded("new_var", || run.solver.new_bounded_integer(*lo, *hi));
+            let Some(d) = r else { return false };
+            run.nvars += 1;
+            assert_eq!(d.id + 1, run.nvars, "harness: unexpected domain id");
+            ext(json!({"e":"NewVarR","v":run.nvars,"lo":lo,"hi":hi}));
+            true
+        }
+        Step::Point { vals } => {
+            let vars = run.user_vars();
+            let mut budget = Budget::new(None, run.poll_cap);
+            let preds: Vec<_> = vars
+                .iter()
+                .map(|d| {
+                    pumpkin_solver::predicate![d == vals[d.id as usize]]
+                })
+                .collect();
+            let br = BrSpec { kind: "default".into(), var: 0, val: 0 };
+            let r = guarded("point", || {
+                let mut brancher = make_brancher(&br, &run.solver, &vars);
+                let result =
+                    run.solver
+                        .satisfy_under_assumptions(&mut brancher, &mut budget, &preds);
+                match result {
+                    SatisfactionResultUnderAssumptions::Satisfiable(s) => ("SAT", Some(s)),
+                    SatisfactionResultUnderAssumptions::Unsatisfiable => ("UNSAT", None),
+                    SatisfactionResultUnderAssumptions::Unknown => ("UNKNOWN", None),
+                    SatisfactionResultUnderAssumptions::UnsatisfiableUnderAssumptions(_) => ("UNSAT_UA", None),
+                }
+            });
+            let Some((res, sol)) = r else { return false };
+            let sol = match sol {
+                Some(s) => run.sol_json(s.as_reference()),
+                None => json!([]),
+            };
+            ext(json!({"e":"Point","vals":vals,"res":res,"sol":sol}));
             true
         }
         Step::NewLit => {
